@@ -666,7 +666,7 @@ def transfer_success_chain(ctx: Ctx, rep: Report, rid: str):
     for p_ in punts:
         facts = ctx.facts(f).facts(p_)
         for (txt, pol) in facts:
-            if dres and txt == dres and not pol:
+            if ((dres and txt == dres) or "download_changed(" in txt) and not pol:      # the result, in a local or tested in place
                 detail.append("download")
             if "upload_synced(" in txt and not pol:
                 detail.append("upload")
@@ -674,7 +674,8 @@ def transfer_success_chain(ctx: Ctx, rep: Report, rid: str):
         facts = ctx.facts(f).facts(n)
         if g.reach([d.id for d in dl], lambda m, n=n: m is n, follow=NORMAL) is None:
             continue
-        ok = ok and (dres is not None and fact_in(facts, dres, True)) and any("upload_synced(" in txt and pol for (txt, pol) in facts)
+        ok = ok and ((dres is not None and fact_in(facts, dres, True)) or any("download_changed(" in txt and pol for (txt, pol) in facts)) \
+            and any("upload_synced(" in txt and pol for (txt, pol) in facts)
     rep.check(rid, "handle_hash_diff|results-tested", f, ok and {"download", "upload"} <= set(detail), "falsy download / upload result -> PUNT; FINISHED only when both truthy",
               "handle_hash_diff no longer turns a failed download / upload (falsy result) into PUNT and success into FINISHED (punt arms: %s): a transfer that did not "
               "happen is reported as done, or a successful one is retried for ever" % sorted(set(detail)))
